@@ -304,6 +304,46 @@ def _work(item):
     return out
 
 
+def ellipsis_implicit_items(rng, n):
+    """omitted outputs of descriptions that contain an ellipsis: 's..., s...' = 's..., s... -> s...', 'b [s]...' = 'b [s]... -> b [s]...'"""
+    items = []
+    g = gencalls.G(rng)
+    while len(items) < n:
+        pre = g.pick_axes(rng.randint(0, 2), sizes=[2, 3], maxprod=9)
+        post = g.pick_axes(rng.randint(0, 1), exclude={a.name for a in pre}, sizes=[2, 3], maxprod=3)
+        ell = [rng.choice([2, 3]) for _ in range(rng.randint(0, 2))]
+        style = rng.choice(["anon", "named", "named"])
+        e_txt = "..." if style == "anon" else "zz..."
+        shape = tuple([a.size for a in pre] + ell + [a.size for a in post])
+        r = rng.random()
+        if r < 0.6:
+            op = rng.choice(["add", "multiply", "maximum", "where"])
+            k = 3 if op == "where" else 2
+            x = " ".join([a.name for a in pre] + [e_txt] + [a.name for a in post])
+            arrays = [gencalls.int_data(rng, shape) for _ in range(k)]
+            if op == "where":
+                arrays[0] = arrays[0] > 0
+            short = ", ".join([x] * k)
+            long_ = short + " -> " + x
+            fam = "elementwise"
+        else:
+            op = rng.choice(["flip", "softmax", "sort", "cumsum"] if False else ["flip", "softmax", "sort"])
+            if style == "anon":
+                x = " ".join([a.name for a in pre] + ["[...]"] + [a.name for a in post])
+            else:
+                x = " ".join([a.name for a in pre] + ["[zz]..."] + [a.name for a in post])
+            if not ell:
+                continue
+            arrays = [gencalls.int_data(rng, shape).astype(np.float64) if op == "softmax" else gencalls.int_data(rng, shape)]
+            if op == "sort" and len(ell) != 1:
+                continue
+            short, long_ = x, x + " -> " + x
+            fam = "preserve"
+        c = gencalls.Call(fam, op, [], [], arrays, desc=short)
+        items.append((c, "implicit_output_ellipsis", short, {}, long_, {}))
+    return items
+
+
 def make_items(rng, n):
     items = []
     tries = 0
@@ -318,7 +358,7 @@ def make_items(rng, n):
         if p is None:
             continue
         items.append((c,) + p)
-    return items
+    return items + ellipsis_implicit_items(rng, max(8, n // 25))
 
 
 def run(ctx):
